@@ -17,6 +17,7 @@ import inspect
 import json
 import math
 import os
+import sys
 import textwrap
 import time
 
@@ -30,7 +31,7 @@ import radical.pilot.agent.launch_method.base    as m_lmb
 import radical.pilot.agent.scheduler.base        as m_schb
 import radical.pilot.agent.executing.base        as m_exb
 
-from vfw.api import custom_obligation, check, Violation, trace
+from vfw.api import custom_obligation, check, Violation, trace, Null
 from vfw import z3enc as E
 
 META = {
@@ -551,3 +552,138 @@ def h_lemma_float_division(tier='quick', replay=None, k=8):
             'samples': [{'lemma': 'floor/ceil(fp64(a)/fp64(b)) == int '
                                   'floor/ceil, a,b <= 2^%d' % k,
                          'verdict': 'unsat'}]}
+
+
+# ------------------------------------------------------------------------------
+# R2c: the whole real _prepare_pilot, concretely, for every shipped platform
+# (finite enumeration, stated as such): what the job and the agent are told
+# agrees with the platform's raw description (cores per node x SMT minus
+# blocked hardware threads, GPUs minus blocked GPUs).  This covers the part of
+# the function the symbolic slice starts after (how the blocked lists and node
+# sizes are read from the config).
+#
+def _mk_launcher(session):
+    from unittest import mock
+    comp = object.__new__(m_launch.PMGRLaunchingComponent)
+    comp._uid        = 'pmgr.launching.0000'
+    comp._cfg        = mock.Mock()
+    comp._log        = Null()
+    comp._session    = session
+    comp._pmgr       = 'pmgr.0000'
+    comp._prof       = ru.Config(cfg={'enabled': False})
+    comp._sandboxes  = dict()
+    comp._root_dir   = '/radical_pilot_src'
+    comp._rp_version = '0.0'
+    return comp
+
+
+def _prepare_concrete(session, comp, resource, schema, n, c, g, b):
+    from unittest import mock
+    pd = rp.PilotDescription({'resource': resource, 'access_schema': schema,
+                              'project': 'p', 'queue': 'q', 'runtime': 10,
+                              'nodes': n, 'cores': c, 'gpus': g,
+                              'backup_nodes': b})
+    pd.verify()
+    pilot = {'uid': 'pilot.0000', 'description': pd.as_dict()}
+    rcfg  = session.get_resource_config(resource, schema)
+    # the RU env helper script is only staged (by name): its location in this
+    # sandbox's interpreter layout is irrelevant
+    real_which = ru.which
+    def _which(names, *a, **k):
+        return real_which(names, *a, **k) or '/opt/bin/%s' % ru.as_list(names)[0]
+    with mock.patch.object(ru.Config, 'write', return_value=None), \
+         mock.patch.object(ru, 'which', _which):
+        comp._prepare_pilot(resource, rcfg, pilot, {}, 'x.tgz')
+    for sd in pilot.get('sds', []):
+        src = str(sd['source'])
+        if os.path.basename(src).startswith('rp.agent_cfg.'):
+            try: os.unlink(src)
+            except OSError: pass
+    return pilot['jd_dict'], pilot['cfg']
+
+
+@custom_obligation(
+    funcs=['radical/pilot/pmgr/launching/base.py:'
+           'PMGRLaunchingComponent._prepare_pilot (whole function, concrete)',
+           'radical/pilot/session.py:Session.get_resource_config'],
+    bounds='finite enumeration (not symbolic): every shipped platform with a '
+           'known node size x every access schema x 6..9 pilot sizes at the '
+           'node-size boundaries (1 core, a full node, a full node + 1, 3 '
+           'nodes - 1, 2 nodes, 3 nodes + 2 backup, and GPU-bound sizes)',
+    timeout={'quick': 300, 'thorough': 600})
+def h_prepare_shipped(tier='quick', replay=None):
+    """job description and agent config follow the platform's raw description"""
+    os.environ.pop('RADICAL_SMT', None)
+    os.environ['PATH'] = '%s:%s' % (os.path.dirname(os.path.abspath(
+                                    sys.executable)), os.environ.get('PATH', ''))
+    s = _load_rcfgs()
+    s._uid = 'session.verif'
+    s._cfg = ru.Config(cfg={'proxy_url': 'tcp://localhost:10000/'})
+    s._get_endpoint_fs      = lambda pilot: ru.Url('file://localhost/')
+    s._get_resource_sandbox = lambda pilot: ru.Url('file://localhost/rs')
+    s._get_session_sandbox  = lambda pilot: ru.Url('file://localhost/rs/s')
+    s._get_pilot_sandbox    = lambda pilot: ru.Url('file://localhost/rs/s/p')
+    s._get_client_sandbox   = lambda      : ru.Url('file://localhost/cs')
+    comp = _mk_launcher(s)
+    if replay is not None:
+        todo = [(replay['resource'], replay['schema'],
+                 [tuple(replay['size'])])]
+    else:
+        todo = []
+        for site in sorted(s._rcfgs):
+            for res in sorted(s._rcfgs[site]):
+                for schema in sorted(s._rcfgs[site][res].get('schemas') or {}):
+                    todo.append(('%s.%s' % (site, res), schema, None))
+    n_checked, samples = 0, []
+    for resource, schema, sizes in todo:
+        site, res = resource.split('.', 1)
+        raw = s._rcfgs[site][res]          # the shipped description itself
+        sa  = raw.get('system_architecture') or {}
+        cpn_raw = raw.get('cores_per_node') or 0
+        if not cpn_raw:
+            continue
+        smt = int(sa.get('smt', 1) or 1)
+        cpn = cpn_raw * smt - len(sa.get('blocked_cores', []) or [])
+        gpn = (raw.get('gpus_per_node') or 0) - \
+              len(sa.get('blocked_gpus', []) or [])
+        if sizes is None:
+            sizes = [(0, 1, 0, 0), (0, cpn, 0, 0), (0, cpn + 1, 0, 0),
+                     (0, 3 * cpn - 1, 0, 0), (2, 0, 0, 0), (3, 0, 0, 2)]
+            if gpn > 0:
+                sizes += [(0, 1, gpn, 0), (0, 1, gpn + 1, 0), (0, cpn, 1, 0)]
+        for (n, c, g, b) in sizes:
+            args = {'resource': resource, 'schema': schema,
+                    'size': [n, c, g, b]}
+            try:
+                jd, cfg = _prepare_concrete(s, comp, resource, schema, n, c, g, b)
+            except Exception as e:
+                if replay is not None:
+                    check(False, '_prepare_pilot raised %r for %s', e, args)
+                return {'status': 'refuted', 'queries': n_checked, 'args': args,
+                        'exc': 'Violation: _prepare_pilot raised %r' % e}
+            exp_nodes = n or max(-(-c // cpn), -(-g // gpn) if gpn > 0 else 0)
+            exp = (exp_nodes + b, (exp_nodes + b) * cpn,
+                   ((exp_nodes + b) * gpn) if gpn > 0 else g)
+            got = (jd.node_count, jd.total_cpu_count, jd.total_gpu_count)
+            agent = (cfg['nodes'] + cfg['backup_nodes'], cfg['cores'],
+                     cfg['gpus'])
+            n_checked += 1
+            if got != exp or agent != got:
+                msg = ('%s [%s] nodes=%d cores=%d gpus=%d backup=%d: job asks '
+                       'for (nodes, cores, gpus) = %s, agent is told %s, the '
+                       'platform description (usable per node: %d cores, %d '
+                       'gpus) requires %s' % (resource, schema, n, c, g, b, got,
+                                              agent, cpn, gpn, exp))
+                if replay is not None:
+                    check(False, '%s', msg)
+                return {'status': 'refuted', 'queries': n_checked, 'args': args,
+                        'exc': 'Violation: ' + msg}
+            if len(samples) < 4:
+                samples.append({'platform': resource, 'schema': schema,
+                                'size': [n, c, g, b], 'job': list(got)})
+        sizes = None
+    if replay is not None:
+        return
+    # concrete evaluations, no solver involved: not counted as queries
+    return {'status': 'confirmed', 'queries': 0, 'paths': n_checked,
+            'reached': {'main': n_checked}, 'samples': samples}
